@@ -242,6 +242,9 @@ class Circuit:
             switch_list_1 = np.arange(self._num_modes)
             switch_list_2 = np.arange(self._num_modes)
             switch_list_1[[0, t1]] = switch_list_1[[t1, 0]]
+            # the first transposition has moved mode 0 to index t1
+            if t2 == 0:
+                t2 = t1
             switch_list_2[[1, t2]] = switch_list_2[[t2, 1]]
 
             self._state = self._state.transpose(switch_list_1)
